@@ -307,7 +307,16 @@ def run(prop, tier, seed, nshards, replay=None):
     else:
         mpctx = multiprocessing.get_context('fork')
         with mpctx.Pool(min(nshards, os.cpu_count() or 1)) as pool:
-            results = pool.map(_shard_entry, args, chunksize=1)
+            if os.environ.get('VERIF_FIRST'):
+                # sensitivity runs only (tools/mut.py): stop all shards as soon as one reports a violation
+                results = []
+                for r in pool.imap_unordered(_shard_entry, args, chunksize=1):
+                    results.append(r)
+                    if r['violations']:
+                        pool.terminate()
+                        break
+            else:
+                results = pool.map(_shard_entry, args, chunksize=1)
 
     ev = 0
     nontriv = set()
